@@ -624,6 +624,7 @@ impl G {
                     vec![c('A'), json!({"t":"star"})],
                     vec![json!({"t":"bol"}), c('b')],
                     // `.*` next to its anchor must stay: `.` does not cross a line break
+                    vec![json!({"t":"star"})],                                   // exactly `.*`
                     vec![json!({"t":"bol"}), json!({"t":"star"}), c('a')],
                     vec![c('b'), json!({"t":"star"}), json!({"t":"eol"})],
                 ];
@@ -2401,7 +2402,7 @@ pub fn gen_cases(topic: &str, seed: u64, n: usize, path: &str) -> Result<(), Str
                         }
                     }
                 }
-                let docs: Vec<J> = (0..8).map(|_| {
+                let mut docs: Vec<J> = (0..6).map(|_| {
                     let mut kv = vec![];
                     for k in ["a", "b", "c"] {
                         if g.r.chance(3, 4) {
@@ -2410,6 +2411,19 @@ pub fn gen_cases(topic: &str, seed: u64, n: usize, path: &str) -> Result<(), Str
                     }
                     obj(kv)
                 }).collect();
+                // documents DIRECTED by the rule: every path the rule writes (an outer key joined with
+                // the key inside its nested block) leads to a leaf that matches or not
+                for _ in 0..3 {
+                    let mut root: Vec<(String, J)> = vec![];
+                    for e in es.iter() {
+                        let outer = str_of(&e["f"]).unwrap_or_default();
+                        let full = if e["v"]["t"] == "map" { format!("{}.{}", outer, str_of(&e["v"]["es"][0]["f"]).unwrap_or_default()) } else { outer };
+                        if g.r.chance(1, 5) { continue; }
+                        let leaf = match g.r.below(4) { 0 => s_node("y"), 1 => json!({"t":"N"}), _ => s_node("x") };
+                        insert_path(&mut root, &full, leaf);
+                    }
+                    docs.push(obj_from(root));
+                }
                 json!({"topic":"path","oracle":true,"wt":true,"src":src,"docs":docs,
                        "plan":{"tri":true,"sws":[[], [true,true,true,true]],"reprs":["json","hm","own","doc","ownfind"]}})
             }
@@ -2437,6 +2451,20 @@ pub fn gen_cases(topic: &str, seed: u64, n: usize, path: &str) -> Result<(), Str
                 let docs: Vec<J> = vals.into_iter().map(|v| obj(vec![("f".into(), v)])).collect();
                 json!({"topic":"num","oracle":true,"wt":true,"src":src,"docs":docs,
                        "plan":{"tri":true,"sws":[[], [true,true,true,true]]}})
+            }
+            // a LIST of plain numbers on a key: each member is compared as a number (a text "3" is not
+            // the number 3, 3.0 is), also after optimisation
+            "num" if mode == 4 => {
+                let a = g.r.below(9) + 1;
+                let b = a + 1 + g.r.below(400);
+                let cond = if g.r.chance(1, 4) { json!({"t":"not","e":{"t":"id","n":cps("A")}}) } else { json!({"t":"id","n":cps("A")}) };
+                let src = json!({"cond":cond,"ids":[[cps("A"),{"t":"map","es":[{"m":"none","c":0,"f":cps("f"),"v":{"t":"list","vs":[
+                                 {"t":"num","n":int_node(&format!("{}", a))}, {"t":"num","n":int_node(&format!("{}", b))}]}}]}]]});
+                let vals = vec![i_node(&format!("{}", a)), s_node(&format!("{}", a)), f_node(&format!("{}.0", a)), i_node(&format!("{}", b)), s_node(&format!("{}", b)),
+                                f_node(&format!("{}.5", a)), json!({"t":"N"}), obj(vec![("x".into(), i_node("1"))]), json!({"t":"A","vs":[s_node(&format!("{}", b))]}), i_node("0")];
+                let docs: Vec<J> = vals.into_iter().map(|v| obj(vec![("f".into(), v)])).collect();
+                json!({"topic":"num","oracle":true,"wt":true,"src":src,"docs":docs,
+                       "plan":{"tri":true,"sws":[[], [true,true,true,true], [false,true,false,false]]}})
             }
             // neighbouring doubles: a float constant against the doubles just below and above it (their
             // shortest decimal spellings): exactly one of < = > holds, `=` only for the same double
@@ -2663,7 +2691,12 @@ pub fn gen_cases(topic: &str, seed: u64, n: usize, path: &str) -> Result<(), Str
                     let raw = match g.r.below(4) {
                         0 => json!({"t":"S","s":cps("not a mapping")}),
                         1 => json!({"t":"N"}),
-                        2 => json!({"t":"A","vs":[{"t":"S","s":cps("x")}]}),
+                        2 => match g.r.below(4) {
+                            0 => json!({"t":"A","vs":[]}),                                         // `- []`
+                            1 => json!({"t":"A","vs":[{"kv":[[cps("f"),{"t":"S","s":cps("x")}]],"t":"O"}]}),   // a list holding a mapping
+                            2 => json!({"t":"A","vs":[{"t":"A","vs":[]}]}),
+                            _ => json!({"t":"A","vs":[{"t":"S","s":cps("x")}]}),
+                        },
                         _ => json!({"t":"B","b":true}),
                     };
                     if g.r.chance(1, 2) { tps.push(json!({"raw":raw})); } else { tns.push(json!({"raw":raw})); }
